@@ -1,10 +1,10 @@
 /-
 Line-protocol driver for the DataSourcing model (C20).
 Input line : {"components":[[cid,"CATEGORY"],…], "events":[ev,…], "channels":[chan,…]}
-  ev   = {"e":"request","ns":str,"cid":nat,"metric":str,"start":int|null}
+  ev   = {"e":"request","ns":str,"cid":nat,"metric":str,"start":str|null}     (start = str(start_time), as in the channel name)
        | {"e":"message","cid":nat,"ts":int,"fields":[[attr,[rat|null,…]],…]}
        | {"e":"start","cid":nat} | {"e":"take","cid":nat}
-  chan = {"ns":str,"cid":nat,"metric":str,"start":int|null}
+  chan = {"ns":str,"cid":nat,"metric":str,"start":str|null}
 Output line: {"delivered":[[[ts,value|null],…] per channel of "channels"],
               "stuck":n,                       (events whose guard was false)
               "subs":[[cid,[[metric,[[ns,start],…]],…]],…]   per listed component, registration order
@@ -15,12 +15,12 @@ import Frequenz.Model.JsonUtil
 
 open Lean JsonUtil DataSourcing
 
-def parseOptInt (j : Json) (k : String) : Except String (Option Int) :=
-  if isNull j k then pure none else do return some (← getInt j k)
+def parseOptStr (j : Json) (k : String) : Except String (Option String) :=
+  if isNull j k then pure none else do return some (← getStr j k)
 
 def parseChan (j : Json) : Except String Chan := do
   return { ns := ← getStr j "ns", cid := ← getNat j "cid", metric := ← getStr j "metric",
-           start := ← parseOptInt j "start" }
+           start := ← parseOptStr j "start" }
 
 def parseVal : Json → Except String (Option Rat)
   | .null => pure none
@@ -52,13 +52,13 @@ def parseComponent (j : Json) : Except String (Nat × String) := do
 
 def sampleJ (s : Sample) : Json := Json.arr #[Json.num (JsonNumber.fromInt s.ts), optRatJ s.value]
 
-def optIntJ : Option Int → Json
+def optStrJ : Option String → Json
   | none => Json.null
-  | some i => Json.num (JsonNumber.fromInt i)
+  | some s => Json.str s
 
 def subsJ (g : Subs) : Json :=
   Json.arr (g.map fun p =>
-    Json.arr #[Json.str p.1, Json.arr (p.2.map fun c => Json.arr #[Json.str c.ns, optIntJ c.start]).toArray]).toArray
+    Json.arr #[Json.str p.1, Json.arr (p.2.map fun c => Json.arr #[Json.str c.ns, optStrJ c.start]).toArray]).toArray
 
 def runCase (j : Json) : Except String Json := do
   let comps ← (← getArr j "components").toList.mapM parseComponent
